@@ -31,20 +31,27 @@ from harness import core
 from harness.core import Atom, Failure, Mismatch, Result, sx
 
 MANIFEST = dict(
-    design_ref="DESIGN.md §6 C11 (Group I: Emitter.v, MaskTable.v)",
+    design_ref="DESIGN.md §6 C11 (Group I: Emitter.v, MaskTable.v, Fs.v, Reader.v, Contract.v, Pipeline.v)",
     text="Coq: executable model of InotifyEmitter.queue_events (Emitter.emit) and of get_event_mask_from_filter "
          "(MaskTable.mask_of_filter, proved equal to a table regenerated from the Python AST on every run); TABLE LEMMA "
          "C11_table (every native flag that can change the watched set or be translated into an accepted class is in the "
-         "filter's mask: sweep 2 x 14 filters x 16 flags, lifted to all filter lists), C11_emit_commutes, "
-         "C11_emit_transparent(_pair), C11_stop_preserved, C11_emit_stream; C11_table_refuted_pinned records F6. The full "
-         "history-level statement is stated as C11_full (needs the reader/kernel models) and is checked on the real kernel "
-         "by the two-watch oracle.",
-    note="Proved at the table and emitter level; the history-level statement C11_full is NOT proved (reader/kernel/"
-         "pairing models pending) - it is covered by the sampled real-kernel oracle only. Kernel delivery rule "
-         "(`delivered`) is modelled, validated end-to-end.",
-    technique="Coq proof (finite vm_compute sweep + fold/lor lifting + case analysis of the emitter chain), AST "
-              "translator (fail-closed), differential correspondence via extracted OCaml model, two-watch oracle on the "
-              "real kernel",
+         "filter's mask: sweep 2 x 14 filters x 16 flags, lifted to all filter lists); emitter level: C11_emit_commutes, "
+         "C11_emit_transparent(_pair), C11_stop_preserved, C11_item_stream; kernel/reader/buffer level: C11_kernel_twin (up to "
+         "kernel coalescing), C11_kernel_no_coalescing, C11_reader_transparent, C11_reader_mask_irrelevant, "
+         "C11_group_transparent; composed: C11_transparent_sequential_all - for EVERY filter, recursive and non-recursive, "
+         "normal and full emitter, over all histories in which every operation is drained (one read of the whole kernel "
+         "queue, grouping, emission), from Inotify.__init__ on: the filtered watch queues exactly the accepted part of what "
+         "the unfiltered watch queues; C11_pipeline_tie_filtered / C11_pipeline_transparent_step tie one drained operation "
+         "to Pipeline.prun with pc_filter. C11_table_refuted_pinned / C11_item_stream_refuted_pinned record F6. The "
+         "unrestricted statement is kept as C11_full (gaps: undrained bursts, the skip-repeats queue, the induction over "
+         "whole Pipeline histories) and is checked on the real kernel by the two-watch oracle.",
+    note="Proved for drained histories over the Fs/Reader/Contract models (tied to the implementation by the pipeline checks "
+         "C01-C03 and, here, by the emitter/mask unit correspondence and the real-kernel oracle); C11_full (bursts, stutter) is "
+         "NOT proved. Kernel delivery rule (Fs.knotify: a bit is sent only if it is in the watch's mask; IN_IGNORED always) is "
+         "modelled, validated end-to-end.",
+    technique="Coq proof (finite vm_compute sweep + fold/lor lifting, case analysis of the emitter chain, twin simulation of "
+              "kernel and reader under two masks, grouping commutation), AST translator (fail-closed), differential "
+              "correspondence via extracted OCaml model, two-watch oracle on the real kernel",
 )
 
 TRUSTED = [
@@ -55,11 +62,12 @@ TRUSTED = [
     "os.walk order and posixpath.dirname (validated against CPython in C14 / this run's unit correspondence)",
 ]
 ASSUMPTIONS = [
-    "C11_full (whole histories, up to stutter) is stated, not proved: proved are the mask table lemma and the "
-    "emitter-level transparency/commutation theorems; the reader's watch bookkeeping and move pairing under a reduced "
-    "mask are covered by the real-kernel oracle only",
-    "end-to-end oracle: operations are issued one at a time with a drain in between (raw-event coalescing inside one "
-    "unread kernel queue can differ between masks when operations are not drained; see DESIGN.md C11 note)",
+    "C11_full (arbitrary histories, up to stutter) is stated, not proved. Proved: C11_transparent_sequential_all - every "
+    "filter, both kinds of watch, every history in which each operation is followed by a read of the whole kernel queue and "
+    "the emission of every item (hypotheses: root path non-empty and not ending in '/', rename sources have a base name). "
+    "Not covered by proof: several operations per read (kernel coalescing differs between masks), pairing across reads "
+    "through the delay queue, the skip-repeats queue; these are covered by the real-kernel oracle only",
+    "end-to-end oracle: operations are issued one at a time with a drain in between (the regime of the proved theorem)",
     "filters are built from the 11 concrete event classes and the 2 base classes of watchdog.events",
 ]
 
